@@ -453,6 +453,15 @@ def check_twin(case):
 def check(case):
     if "twin" in case:
         return check_twin(case)
+    if "fixed_expect" in case:
+        src, _ = ms.program([("print", S("@start"))] + case["stmts"] + [("print", S("@end"))])
+        out = "\n".join(["@start"] + case["fixed_expect"] + ["@end"]) + "\n"
+        sc = scenario.simple(src, asserts=[{"kind": "stdout_eq", "step": "run", "value": out}, {"kind": "exit", "step": "run", "in": ["ok"]}])
+        r = CaseResult(nt_keys=[src], labels=case["labels"] + ["model:ok"], sample={"history": src[-600:], "expected_stdout_tail": out[-300:]})
+        res, fails, _ = scenario.execute(sc)
+        if fails:
+            r.failure = fail("; ".join(fails) + "\n" + src, "C08:stdout:%s:%s" % (res["run"].klass, case["labels"][0]), sc, case={"source": src})
+        return r
     stmts = [("print", S("@start"))] + case["stmts"] + [("print", S("@end"))]
     src, _ = ms.program(stmts)
     hist, _ = ms.program(case["stmts"] if case.get("raw") else case["stmts"][6:])
@@ -547,7 +556,22 @@ def enumerated(tier, seed):
              ("print", ("bin", "is", ("mcall", ("mcall", V("ca"), "twin", []), "bump", [I(1)]), V("ca"))),
              ("print", ("mcall", ("mcall", ("mcall", V("ca"), "bump", [I(1)]), "other", [V("cb")]), "val", [])),
              ("print", F(V("ca"), "v")), ("print", F(V("cb"), "v"))]
-    return twin_cases() + optional_field_cases() + [{"stmts": chain, "labels": ["feat:method-chained-on-returned-object"], "nt": True, "raw": True},
+    # a method that op-assigns a field by its BARE name while frames below it (a caller's parameter, a caller's loop counter, a
+    # module variable is KF-C08-1 and left out) hold variables of that name
+    bare = [("class", "Ty", [("count", "int")], [("start", "int")], [("setf", SELF, "count", V("start"))],
+             [("hit", [], "int", [("opassign", V("count"), "+=", I(1)), ("return", V("count"))]),
+              ("hit2", [], "int", [("expr", ("mcall", SELF, "hit", [])), ("return", ("mcall", SELF, "hit", []))]),
+              ("peek", [], "int", [("return", F(SELF, "count"))])]),
+            G("drive", None, ("fn", [("t", ("cls", "Ty")), ("count", "int")], "int", [("from", I(0), V("count"), False, None, None, [("expr", ("mcall", V("t"), "hit", []))]), ("return", V("count"))])),
+            G("loopd", None, ("fn", [("t", ("cls", "Ty"))], "int", [G("acc", None, I(0)), ("from", I(0), I(2), False, None, "count", [G("acc", None, ("bin", "+", V("acc"), ("mcall", V("t"), "hit", [])))]), ("return", V("acc"))])),
+            G("ta", None, ("new", "Ty", [I(0)])), G("tb", None, ("new", "Ty", [I(100)])), G("al", None, V("ta")),
+            ("print", ("mcall", V("ta"), "hit", [])), ("print", ("mcall", V("tb"), "hit2", [])), ("print", ("mcall", V("ta"), "peek", [])),
+            ("print", ("call", V("drive"), [V("ta"), I(3)])), ("print", ("mcall", V("al"), "peek", [])), ("print", ("mcall", V("tb"), "peek", [])),
+            ("print", ("call", V("drive"), [V("tb"), I(2)])), ("print", ("call", V("loopd"), [V("al")])), ("print", ("mcall", V("ta"), "peek", [])), ("print", ("mcall", V("tb"), "peek", []))]
+    # (the reference interpreter does not resolve bare field names in writes: the expected lines are written out by hand - a bare
+    # name in a method that is a field of the class means the field of `self`)
+    bare_expect = ["1", "102", "1", "3", "4", "102", "2", "11", "6", "104"]
+    return twin_cases() + optional_field_cases() + [{"fixed_expect": bare_expect, "stmts": bare, "labels": ["feat:bare-field-op-assignment-under-same-named-caller-variables"], "nt": True, "raw": True}] + [{"stmts": chain, "labels": ["feat:method-chained-on-returned-object"], "nt": True, "raw": True},
             {"stmts": inlist, "labels": ["feat:index_of-object-in-list"], "nt": True, "raw": True},
             {"stmts": esc, "labels": ["feat:self-escapes-from-constructor"], "nt": True, "raw": True},
             {"stmts": coll, "labels": ["feat:field-named-like-a-global"], "nt": True, "raw": True},
